@@ -32,7 +32,7 @@ CLAIMED = {
         "technique": "exhaustive input-product enumeration on the real XR and claim reconcilers with a differential oracle",
     },
     "C06": {
-        "text": "Histories of W real claim reconciles (client-side and server-side-apply syncers) where every API call is a fault/crash point and every cached read of claim/XR may be up to 3 writes stale (<= F deviations), interleaved with exhaustive environment events (XR reconciles, claim deletion), continued to quiescence; J1 (at most one XR per claim), J2 (claim references the XR at the instant it is created), J3 (name stable), J4 (no write to an XR bound to another claim) evaluated after every effective write. 5 initial states incl. hijack attempt and pending reference.",
+        "text": "Histories of W real claim reconciles (client-side and server-side-apply syncers) where every API call is a fault/crash point and every cached read of claim/XR may be up to 3 writes stale (<= F deviations), interleaved with exhaustive environment events (XR reconciles, claim deletion), continued to quiescence; J1 (at most one XR per claim), J2 (claim references the XR at the instant it is created), J3 (name stable), J4 (no write to an XR bound to another claim) evaluated after every effective write; 7 initial states incl. hijack attempts (other name, same name in another namespace), pending reference, and a claim that was deleted and finalized but is still served by a lagging cache. Plus thread-mode scenarios: all API-call-level interleavings (<= 2, thorough 3 preemptions) of the claim reconciler, the XR reconciler and the user's deletion of the claim.",
         "technique": "bounded exhaustive fault / crash-point / cache-lag enumeration on the real claim reconciler (DFS with state-hash pruning)",
     },
 }
